@@ -1298,7 +1298,7 @@ func (x *Exec) store(st *State, fr *Frame, addr Val, v Val, t types.Type, at ssa
 func (x *Exec) guardCheck(st *State, a FieldPtr, write bool, nv Val) {
 	key := a.SN + "." + a.S.Field(a.Idx).Name()
 	fr := st.top()
-	if mf, ok := x.specs.Guarded[key]; ok && x.onlyTagIs("C14") {
+	if mf, ok := x.specs.Guarded[key]; ok && x.onlyTagIn(x.specs.GuardTags[key]) {
 		if _, has := st.ghost["lockmode"]; has {
 			st.declareOnce("is_fresh", "(declare-fun is_fresh (Ref) Int)")
 			mu := st.embRef(a.SN, mf, a.Ref)
@@ -1315,7 +1315,7 @@ func (x *Exec) guardCheck(st *State, a FieldPtr, write bool, nv Val) {
 				pos = fr.block.Instrs[fr.pc].Pos()
 			}
 			name := fmt.Sprintf("%s/%s:%s@%s", x.curFunc, kind, key, x.siteName(fr, pos))
-			x.oblige(st, name, "lock-discipline", []string{"C14"}, goal, pos, key+" is accessed only while "+a.SN+"."+mf+" is held in the required mode")
+			x.oblige(st, name, "lock-discipline", x.specs.GuardTags[key], goal, pos, key+" is accessed only while "+a.SN+"."+mf+" is held in the required mode")
 		}
 	}
 	if write && x.curContract != nil && len(x.curContract.Immutable) > 0 && x.onlyTagIs("C15") && len(st.frames) >= 1 {
@@ -1400,6 +1400,18 @@ func (x *Exec) guardCheck(st *State, a FieldPtr, write bool, nv Val) {
 }
 
 func (x *Exec) onlyTagIs(tag string) bool { return x.onlyTag == "" || x.onlyTag == tag }
+
+func (x *Exec) onlyTagIn(tags []string) bool {
+	if x.onlyTag == "" {
+		return true
+	}
+	for _, t := range tags {
+		if t == x.onlyTag {
+			return true
+		}
+	}
+	return false
+}
 
 // publishedCheck (C15): memory that has been handed to a process-wide cache (ghost published[arr], set by the
 // dependency contracts of sync.Map.Store/LoadOrStore) must never be written again.
